@@ -64,7 +64,17 @@ func (C17) Init(env world.Env) mc.Model {
 			panic(e)
 		}
 	}
-	return c17Model{Files: []string{"U1|mB|" + strconv.FormatInt(h, 10)}}
+	// and a second file (other owner, other content, replication 2) with one prover: two files with provers at every reward block
+	u2 := w.A("U2").Bech
+	f2 := c17Files["mA"]
+	mustOK(env.Deliver(storagetypes.NewMsgPostFile(u2, f2.merkle, int64(len(f2.data)), 0, 0, 2, "{}")), "second seed file")
+	item, hl := f2.proofFor(0)
+	if ok, e := postProofOK(w, env.Deliver(storagetypes.NewMsgPostProof(w.A("P1").Bech, f2.merkle, u2, h, item, hl, 0))); !ok {
+		panic(e)
+	}
+	files := []string{"U1|mB|" + strconv.FormatInt(h, 10), "U2|mA|" + strconv.FormatInt(h, 10)}
+	sort.Strings(files)
+	return c17Model{Files: files}
 }
 
 func (C17) Events(env world.Env, mm mc.Model) []string {
